@@ -1,6 +1,30 @@
 """C09 - HTTP client completes each fetch once, honours max_clients, redirects safely.
 
-(docstring completed below)
+Admission (specs/httpm/ClientAdmission.tla)
+  MC : all interleavings of fetch(connect/request timeout pair) / connection end (ok, failure) /
+       clock advance for 4-5 fetches, max_clients 1..3; invariants: at most max_clients active, no
+       idle slot while something waits, starts in submission order, each fetch delivered exactly
+       once, a fetch that timed out in the queue is never started; liveness: all complete.
+  S2C: every schedule up to length L replayed on a real SimpleAsyncHTTPClient whose
+       _connection_class is a scripted stub (virtual time); fetch futures, start order and
+       completion-delivery counts compared after every step.
+  C2S: random schedules over 30 fetches, max_clients 1..5, validated by TLC.
+Redirects (specs/httpm/Redirects.tla)
+  MC : all chains of server answers (status x Location shape, connection drop, request timeout)
+       for 4 methods x 11 header/credential sets x max_redirects 0..3 x follow on/off; invariants:
+       bounded redirects, cross-origin requests carry no Authorization / Cookie / URL credentials,
+       GET/HEAD bodiless; action properties: 303 / 301-302-POST rewriting, method kept otherwise,
+       stripped stays stripped, completion final.
+  S2C: every chain of up to 2 (3 thorough) answers replayed end to end: real _HTTPConnection over an
+       in-memory TCP client (harness.memstream.MemStream); the fake server parses the request bytes
+       of every hop (target host/port/TLS, method, path, Host, Authorization and Cookie values,
+       body, Content-Length/Type) and the final status delivered to the caller is compared.
+  C2S: random chains (max_redirects up to 8, all methods) validated by TLC.
+
+Binding demonstrated during development (scratch worktree, see notes/httpm.md): `>=` -> `>` in
+fetch_impl's capacity test, popping the queue from the right, dropping _remove_timeout in
+_process_queue, dropping `and self.request.method != "HEAD"` / treating 307 like 302, skipping the
+Cookie deletion, and `max_redirects - 1` -> `max_redirects` were each reported as VIOLATION.
 """
 import random
 
